@@ -1,14 +1,23 @@
 #!/usr/bin/env python3
-"""latcert — per-sample, kernel-checked certificates for the latitude axis of property C01 (DESIGN.md 4.3).
+"""latcert — per-latitude, kernel-checked certificates for the latitude axis of property C01 (DESIGN.md 4.3).
 
-For a seeded sample of stored latitudes phi (exact dyadic rationals) and zooms h, the row y returned by the code under analysis
-($VERIF_REPO) is compared with the real-number row  2^h * (1 - ln(tan a + 1/cos a)/PI)/2,  a = phi*PI/180:
-  1. CoqInterval (interval_intro, 120 bits) encloses the real row; the enclosure names the true row k;
-  2. a Coq file with one lemma per point is compiled by coqc (Qed = kernel-checked):
-       sharp   IZR y <= row < IZR y + 1                              (y = k)
-       banded  IZR y - d <= row < IZR y + 1 + d, d = 2^(h-45) rows   (y = k-1 or k+1, real row within d of the common boundary:
-                                                                       class y_rounding, counted, not a violation)
-       otherwise the lemma  IZR k <= row < IZR k + 1  with k <> y certifies that the code's row is wrong: REPLAY + exit 1.
+For a seeded sample of stored latitudes phi (exact dyadic rationals) the rows y_0 .. y_35 returned by the code under analysis
+($VERIF_REPO) at ALL 36 zooms are compared with the real-number row  2^h * (1 - ln(tan a + 1/cos a)/PI)/2,  a = phi*PI/180:
+  1. CoqInterval (interval_intro, 120 bits) encloses the real row at zoom 35 once per latitude; the real rows of the other zooms are
+     that number divided by 2^(35-h) (exact), so one enclosure decides all 36 zooms (PointProofs.y_f_all_zooms_from_35 is the same
+     fact on the model: a certified zoom-35 row gives every zoom);
+  2. a Coq file with one lemma per latitude is compiled by coqc (Qed = kernel-checked):
+       sharp   IZR y35 <= row35 < IZR y35 + 1                        then every y_h must equal y35 >> (35-h), checked exactly here
+       banded  IZR y35 - d <= row35 < IZR y35 + 1 + d, d = 2^-10     (y35 = k-1 or k+1 and the real row within d of the common boundary)
+     and, for a row that is wrong at some zoom h, the lemma  IZR k <= row_h < IZR k + 1  with k <> y_h: REPLAY + exit 1.
+Outcomes per (latitude, zoom) pair, all reported as STAT lines:
+  certified_sharp   y_h is the real-number row;
+  y_rounding        y_h is a neighbour row and the real position is within 2^(h-45) rows of the common boundary (the tolerance band of
+                    the property's own observation point; PointProofs.y_f_close shows it is what |m/2 - w| <= 2^-45 allows). Counted,
+                    not a violation; never observed so far. If it ever exceeds 1 % of the pairs the step answers BROKEN;
+  undecided         the 120-bit enclosure straddles an integer n (real row within 2^-100 of a boundary): y_h must still be n-1 or n,
+                    else violation; more than max(1, 1 %) undecided latitudes = BROKEN (the certificates no longer decide);
+  outside_band      violation.
 Protocol (AGENT-GUIDE, extra steps): exit 0 ok; exit 1 + "REPLAY <path>"; other exit + "BROKEN <text>"; "STAT k=v" lines.
 Only the python standard library is used."""
 import os, sys, subprocess, json, re, shutil, time
@@ -20,7 +29,7 @@ REPO = os.path.realpath(os.environ.get("VERIF_REPO", "/repo"))
 BUILD = os.environ.get("VERIF_BUILD", "/tmp/vdev/C01")
 TIER = os.environ.get("VERIF_TIER", "quick")
 SEED = os.environ.get("VERIF_SEED", "1") or "1"
-N = int(os.environ.get("C01_LATCERT_N", "0") or 0) or (100 if TIER == "quick" else 2000)
+N = int(os.environ.get("C01_LATCERT_N", "0") or 0) or (120 if TIER == "quick" else 2000)      # latitudes; each at all 36 zooms
 WORK = os.path.join(BUILD, "latcert")
 ENV = dict(os.environ, GOFLAGS="-mod=mod", GOPROXY="off", GOSUMDB="off", GOTOOLCHAIN="local", CGO_ENABLED="1")
 HEADER = "From Coq Require Import Reals.\nFrom Interval Require Import Tactic.\nOpen Scope R_scope.\nSet Printing Width 1000000.\n"
@@ -99,33 +108,26 @@ def main():
     sampler = build_sampler()
     r = subprocess.run([sampler, "-seed", SEED, "-n", str(N)], stdout=subprocess.PIPE, stderr=subprocess.PIPE, text=True, timeout=600)
     if r.returncode != 0:
-        broken("the latitude sampler failed: " + (r.stderr or r.stdout)[-400:])
+        broken("the latitude sampler failed (a valid latitude is refused or an ID is malformed): " + (r.stderr or r.stdout)[-400:])
     pts = []
     seen = set()
     for line in r.stdout.split("\n"):
         f = line.split()
-        if len(f) != 3:
+        if len(f) != 37:
             continue
-        bits, h, y = int(f[0], 16), int(f[1]), int(f[2])
-        if (bits, h) in seen:
+        bits = int(f[0], 16)
+        if bits in seen:
             continue
-        seen.add((bits, h))
-        pts.append({"bits": bits, "h": h, "y": y, "q": lat_fraction(bits)})
+        seen.add(bits)
+        pts.append({"bits": bits, "ys": [int(x) for x in f[1:]], "q": lat_fraction(bits)})
     if not pts:
         broken("the latitude sampler produced no points")
     nshard = max(1, min(8, (os.cpu_count() or 2) // 2, (len(pts) + 39) // 40))
-    # --- 1. enclosures of the real row
-    by_lemma = 0
+    # --- 1. one enclosure of the real zoom-35 row per latitude
     todo = []
     for i, p in enumerate(pts):
         p["i"] = i
-        if p["q"] == 0:
-            # the equator: the fraction is exactly 1/2 (PtMerc.wfrac_0, Y_exact_equator): row 2^(h-1), or 0 at zoom 0
-            p["k"] = (1 << (p["h"] - 1)) if p["h"] >= 1 else 0
-            p["lo"] = p["hi"] = Fraction(1 << p["h"], 2)
-            p["lemma"] = True
-            by_lemma += 1
-        else:
+        if p["q"] != 0:
             todo.append(p)
     files = []
     for s in range(nshard):
@@ -133,7 +135,7 @@ def main():
         with open(fn, "w") as fh:
             fh.write(HEADER)
             for p in todo[s::nshard]:
-                fh.write(f"Goal True. interval_intro {row_expr(p['q'], p['h'])} with (i_prec 120) as H. "
+                fh.write(f"Goal True. interval_intro {row_expr(p['q'], 35)} with (i_prec 120) as H. "
                          f"match type of H with (?a <= _ <= ?b) => idtac \"ENC\" \"{p['i']}\" \"LO\" a \"HI\" b end. exact I. Qed.\n")
         files.append(fn)
     outs = run_shards(files, "coqtop")
@@ -146,77 +148,105 @@ def main():
                 broken("cannot read an interval enclosure printed by Coq: " + str(e))
     missing = [p for p in todo if p["i"] not in enc]
     if missing:
-        broken(f"CoqInterval produced no enclosure for {len(missing)} of {len(todo)} sample latitudes (first: bits {missing[0]['bits']:016x} h {missing[0]['h']}); "
+        broken(f"CoqInterval produced no enclosure for {len(missing)} of {len(todo)} sample latitudes (first: bits {missing[0]['bits']:016x}); "
                + outs[0][1][-300:])
-    # --- 2. classification from the enclosures, and the lemmas to be kernel-checked
-    sharp, rounding, undecided, viol = [], [], [], []
+    # --- 2. every zoom of every latitude, from the one enclosure
+    n_sharp = n_round = n_undec = n_equ = 0
+    undec_lats = 0
+    viol = []          # (p, h, y, k, near_lo, near_hi)
     lemmas = []
     for p in pts:
-        h, y = p["h"], p["y"]
-        d = Fraction(1, 1 << (45 - h))
-        if p.get("lemma"):
-            (sharp if y == p["k"] else viol).append(p)
-            p["near_lo"] = p["near_hi"] = False
+        ys = p["ys"]
+        if p["q"] == 0:
+            # the equator: the fraction is exactly 1/2 (PtMerc.wfrac_0, Y_exact_equator): row 2^(h-1), or 0 at zoom 0
+            for h in range(36):
+                k = (1 << (h - 1)) if h >= 1 else 0
+                n_equ += 1
+                if ys[h] != k:
+                    viol.append((p, h, ys[h], k, False, False, Fraction(1 << h, 2), Fraction(1 << h, 2)))
             continue
-        lo, hi = enc[p["i"]]
-        p["lo"], p["hi"] = lo, hi
-        if floor(lo) != floor(hi):
-            undecided.append(p)          # the real row is within 2^-100 of an integer: not decidable at this precision
-            continue
-        k = floor(lo)
-        p["k"] = k
-        p["near_lo"] = lo < k + d
-        p["near_hi"] = hi >= k + 1 - d
-        row = row_expr(p["q"], h)
-        if y == k:
-            sharp.append(p)
-            lemmas.append((p, f"Lemma sharp_{p['i']} : {y} <= {row} < {y} + 1. Proof. split; interval with (i_prec 120). Qed."))
-        elif (y == k - 1 and hi < k + d) or (y == k + 1 and lo >= k + 1 - d):
-            rounding.append(p)
-            lemmas.append((p, f"Lemma band_{p['i']} : {y} - / 2^{45 - h} <= {row} < {y} + 1 + / 2^{45 - h}. Proof. split; interval with (i_prec 120). Qed."))
-            lemmas.append((p, f"Lemma true_row_{p['i']} : {k} <= {row} < {k} + 1. Proof. split; interval with (i_prec 120). Qed."))
-        elif (y == k - 1 and p["near_lo"]) or (y == k + 1 and p["near_hi"]):
-            undecided.append(p)
-        else:
-            viol.append(p)
-            lemmas.append((p, f"Lemma true_row_{p['i']} : {k} <= {row} < {k} + 1. Proof. split; interval with (i_prec 120). Qed."))
+        lo35, hi35 = enc[p["i"]]
+        row35 = row_expr(p["q"], 35)
+        # the kernel-checked lemma of this latitude (zoom 35)
+        k35lo, k35hi = floor(lo35), floor(hi35)
+        d35 = Fraction(1, 1 << 10)
+        y35 = ys[35]
+        if k35lo == k35hi and y35 == k35lo:
+            lemmas.append((p, 35, f"Lemma sharp35_{p['i']} : {y35} <= {row35} < {y35} + 1. Proof. split; interval with (i_prec 120). Qed."))
+        elif k35lo == k35hi and ((y35 == k35lo - 1 and hi35 < k35lo + d35) or (y35 == k35lo + 1 and lo35 >= k35lo + 1 - d35)):
+            lemmas.append((p, 35, f"Lemma band35_{p['i']} : {y35} - / 2^10 <= {row35} < {y35} + 1 + / 2^10. Proof. split; interval with (i_prec 120). Qed."))
+            lemmas.append((p, 35, f"Lemma true_row35_{p['i']} : {k35lo} <= {row35} < {k35lo} + 1. Proof. split; interval with (i_prec 120). Qed."))
+        elif k35lo != k35hi:
+            undec_lats += 1
+        lat_bad = False
+        for h in range(36):
+            sc = 1 << (35 - h)
+            lo, hi = lo35 / sc, hi35 / sc
+            d = Fraction(1, 1 << (45 - h))
+            y = ys[h]
+            if floor(lo) != floor(hi):
+                n = floor(hi)
+                if y == n or y == n - 1:
+                    n_undec += 1
+                else:
+                    viol.append((p, h, y, n, True, False, lo, hi)); lat_bad = True
+                continue
+            k = floor(lo)
+            if y == k:
+                n_sharp += 1
+            elif (y == k - 1 and hi < k + d) or (y == k + 1 and lo >= k + 1 - d):
+                n_round += 1
+            elif (y == k - 1 and lo < k + d) or (y == k + 1 and hi >= k + 1 - d):
+                n_undec += 1
+            else:
+                viol.append((p, h, y, k, lo < k + d, hi >= k + 1 - d, lo, hi)); lat_bad = True
+                if len(viol) <= 12:
+                    rowh = row_expr(p["q"], h)
+                    lemmas.append((p, h, f"Lemma true_row_{p['i']}_{h} : {k} <= {rowh} < {k} + 1. Proof. split; interval with (i_prec 120). Qed."))
     files = []
     for s in range(nshard):
         fn = os.path.join(WORK, f"LatCert{s}.v")
         with open(fn, "w") as fh:
             fh.write("(* generated by harness/props/c01/latcert.py: interval certificates for the latitude rows returned by the code *)\n" + HEADER)
-            for p, l in lemmas[s::nshard]:
-                fh.write(f"(* latitude bits {p['bits']:016x}, zoom {p['h']}, the code returned row {p['y']} *)\n{l}\n")
+            for p, h, l in lemmas[s::nshard]:
+                fh.write(f"(* latitude bits {p['bits']:016x}, zoom {h}, the code returned row {p['ys'][h]} *)\n{l}\n")
         files.append(fn)
     outs = run_shards(files, "coqc")
     for (code, out), fn in zip(outs, files):
         if code != 0:
             broken(f"a generated interval certificate does not check ({os.path.basename(fn)}): " + out[-400:])
-    print(f"STAT points={len(pts)}")
-    print(f"STAT certified_sharp={len(sharp)}")
-    print(f"STAT y_rounding={len(rounding)}")
-    print(f"STAT undecided_within_2^-100={len(undecided)}")
-    print(f"STAT equator_by_lemma={by_lemma}")
+    pairs = 36 * len(pts)
+    print(f"STAT latitudes={len(pts)}")
+    print(f"STAT pairs_lat_zoom={pairs}")
+    print(f"STAT certified_sharp={n_sharp}")
+    print(f"STAT y_rounding={n_round}")
+    print(f"STAT undecided_within_2^-100={n_undec}")
+    print(f"STAT undecided_latitudes={undec_lats}")
+    print(f"STAT equator_pairs_by_lemma={n_equ}")
     print(f"STAT kernel_checked_lemmas={len(lemmas)}")
     print(f"STAT outside_band={len(viol)}")
-    print(f"STAT zooms={len(set(p['h'] for p in pts))}")
     print(f"STAT wall_s={time.time() - t0:.1f}")
-    if not viol:
-        return 0
-    rd = os.path.join(BUILD, "replays") if os.environ.get("VERIF_DEV") == "1" else os.path.join(VERIF, "replays")
-    os.makedirs(rd, exist_ok=True)
-    for j, p in enumerate(viol[:3]):
+    if viol:
+        rd = os.path.join(BUILD, "replays") if os.environ.get("VERIF_DEV") == "1" else os.path.join(VERIF, "replays")
+        os.makedirs(rd, exist_ok=True)
         b = lambda x: "b1" if x else "b0"
-        rp = os.path.join(rd, f"C01-latcert-{j}.json")
-        json.dump({"property": "C01", "function": "LatRow", "kind": "property", "class": "-",
-                   "args": f"( f{p['bits']:016x} i{p['h']} i{p['k']} {b(p['near_lo'])} {b(p['near_hi'])} )",
-                   "observed": f"i{p['y']}", "model": "", "shrunk": False,
-                   "note": f"interval certificate (kernel-checked, {WORK}): the real Mercator row of latitude {float(p['q'])!r} at zoom {p['h']} is {p['k']} "
-                           f"(enclosure [{float(p['lo'])!r}, {float(p['hi'])!r}]); the code returned {p['y']}, outside the band of 2^({p['h']}-45) rows"},
-                  open(rp, "w"), indent=1)
-        print("REPLAY " + rp)
-    print(f"BROKEN {len(viol)} of {len(pts)} sampled latitudes: the returned row is not the certified real-number row (first: lat {float(viol[0]['q'])!r} zoom {viol[0]['h']} returned {viol[0]['y']} certified {viol[0]['k']})")
-    return 1
+        for j, (p, h, y, k, nlo, nhi, lo, hi) in enumerate(viol[:3]):
+            rp = os.path.join(rd, f"C01-latcert-{j}.json")
+            json.dump({"property": "C01", "function": "LatRow", "kind": "property", "class": "-",
+                       "args": f"( f{p['bits']:016x} i{h} i{k} {b(nlo)} {b(nhi)} )",
+                       "observed": f"i{y}", "model": "", "shrunk": False,
+                       "note": f"interval certificate (kernel-checked, {WORK}): the real Mercator row of latitude {float(p['q'])!r} at zoom {h} is {k} "
+                               f"(enclosure [{float(lo)!r}, {float(hi)!r}]); the code returned {y}, outside the band of 2^({h}-45) rows"},
+                      open(rp, "w"), indent=1)
+            print("REPLAY " + rp)
+        p, h, y, k = viol[0][:4]
+        print(f"BROKEN {len(viol)} of {pairs} (latitude, zoom) pairs: the returned row is not the certified real-number row (first: lat {float(p['q'])!r} zoom {h} returned {y} certified {k})")
+        return 1
+    if undec_lats > max(1, len(pts) // 100):
+        broken(f"{undec_lats} of {len(pts)} sampled latitudes are undecided at 120 bits: the interval certificates no longer decide the row")
+    if n_round > pairs // 100:
+        broken(f"{n_round} of {pairs} (latitude, zoom) pairs are only inside the tolerance band (class y_rounding): the latitude computation lost accuracy")
+    return 0
 
 
 if __name__ == "__main__":
